@@ -153,6 +153,7 @@ func (sc *SeqScenario) enumerate(c *Collector, unitBase *int) {
 				if at == len(hist) {
 					v.History += "; <final battery>"
 				}
+				applyFlags(w, v)
 				if sc.Classify != nil {
 					sc.Classify(w, hist, v)
 				}
